@@ -56,8 +56,17 @@ func runAbi(rng *rand.Rand, n int, out *Out, _ []string) {
 			ids[id] = name
 		}
 	}
+	var withArgs []mref
+	for _, x := range ms {
+		if len(x.abi.ABI.Methods[x.name].Inputs) > 0 {
+			withArgs = append(withArgs, x)
+		}
+	}
 	for i := 0; i < n; i++ {
 		mr := ms[i%len(ms)]
+		if i%3 != 0 { // two thirds of the cases on methods that decode arguments
+			mr = withArgs[(i/3*2+i%3)%len(withArgs)]
+		}
 		m := mr.abi.ABI.Methods[mr.name]
 		args := make([]interface{}, len(m.Inputs))
 		for j, a := range m.Inputs {
